@@ -3,8 +3,7 @@
      Dataset.ChunkIterator / Chunk       dataset_chunk_iterator.go
      Dataset.ReadCompound (variable-length members through the global heap)   internal/core/dataset_reader_compound.go
      Dataset.ReadAttribute (variable-length strings through the global heap)  group.go:86, internal/core/attribute.go:166
-   (Dataset.ReadStrings makes exactly the I/O calls of Model/IOProgReader.v api_read_raw: dataset_reader_strings.go:66-103
-    is the layout dispatch of dataset_reader.go with the same ReadBytesAt / readChunkedData calls; what follows is pure.)
+     Dataset.ReadStrings                                                       internal/core/dataset_reader_strings.go
    Every r.ReadAt call site and every dropped error carries a file:line comment against the current /repo.  The
    selection arithmetic is uint64 (wrap64).  What is done with bytes that have been read (filter pipeline, scatter
    into the output, conversion to float64) is a pure function of those bytes: the programs return the bytes read.
@@ -351,9 +350,30 @@ Definition vlen_walk (idx : nat) (n : N) (attrs : list attr) : list (outcome byt
       map (fun i => match slice d (i * rs) (i * rs + rs) with Ok e => Ok (skipn 4 e) | _ => Err end) (nseq n)
   end.
 
-(* Dataset.ReadCompound (group.go:133): the raw data (api_read_raw), then the walk over it *)
-Definition api_read_compound (fuel : nat) (addr : N) (walk : rawdata -> list (outcome bytes)) : prog (rawdata * list bytes) :=
-  bind (api_read_raw sb fuel addr) (fun raw => bind (p_steps fuel (walk raw)) (fun ss => Ret (raw, ss))).
+(* ReadDatasetStrings / ReadDatasetCompound (dataset_reader_strings.go:14-107, dataset_reader_compound.go:16-115): the
+   layout dispatch of ReadDatasetFloat64 (p_dataset_raw: the same ReadBytesAt / readChunkedData calls) behind a check
+   of the datatype that is made before any data is read (IsString, dataset_reader_strings.go:47; IsCompound and
+   ParseCompoundType, dataset_reader_compound.go:50-58) *)
+Definition p_dataset_raw_gated (fuel : nat) (ms : list hmsg') (gate : datatype -> bool) : prog rawdata :=
+  match find_msg 3 ms with
+  | Some dtd => bind (lift (dec_datatype dtd)) (fun dt => if gate dt then p_dataset_raw sb fuel ms else Fail)
+  | None => Fail
+  end.
+
+(* Dataset.ReadStrings (group.go:119): ReadObjectHeader (attribute error not looked at), then the string reader *)
+Definition api_read_strings (fuel : nat) (addr : N) : prog rawdata :=
+  bind (p_ohdr sb fuel addr) (fun h =>
+  Swallow (bind (p_attrs sb (ohp_msgs h)) (fun a => Ret (Some a))) None
+          (fun _ => p_dataset_raw_gated fuel (ohp_msgs h) (fun dt => dt_class dt =? 3))).
+
+(* Dataset.ReadCompound (group.go:133): the raw data, then the walk over it (parseCompoundData);
+   ctype = "ParseCompoundType succeeds" (a pure function of the datatype message) *)
+Definition api_read_compound (fuel : nat) (addr : N) (ctype : datatype -> bool) (walk : rawdata -> list (outcome bytes))
+  : prog (rawdata * list bytes) :=
+  bind (p_ohdr sb fuel addr) (fun h =>
+  Swallow (bind (p_attrs sb (ohp_msgs h)) (fun a => Ret (Some a))) None
+          (fun _ => bind (p_dataset_raw_gated fuel (ohp_msgs h) (fun dt => (dt_class dt =? 6) && ctype dt)) (fun raw =>
+                    bind (p_steps fuel (walk raw)) (fun ss => Ret (raw, ss))))).
 
 (* Dataset.ReadAttribute(name) (group.go:86): Attributes(), then ReadValue of the attribute found *)
 Definition api_read_attribute (fuel : nat) (addr : N) (walk : list attr -> list (outcome bytes)) : prog (list attr * list bytes) :=
